@@ -354,6 +354,10 @@ class NoDepsFileNames(object):
             for req in (['FOO-MIB'], ['BAR-MIB'], ['FOO-MIB', 'BAR-MIB'], ['BAR-MIB', 'FOO-MIB']):
                 for nd in (False, True):
                     yield {'f': block['f'], 'b': b, 'req': req, 'nd': nd}
+                    if 'FOO-MIB' in req and b == 'BAR-MIB':
+                        # the request may spell the name as the reader's matching options allow: lower / mixed case, no -MIB
+                        for spell in ('foo-mib', 'Foo-Mib', 'FOO', 'foo'):
+                            yield {'f': block['f'], 'b': b, 'req': req, 'nd': nd, 'spell': spell}
 
     def run_case(self, case):
         from mc import env
@@ -371,14 +375,15 @@ class NoDepsFileNames(object):
             comp = env.MibCompiler(env.fresh_parser('smiV2'), env.make_codegen('json'), w)
             comp.addSources(FileReader(d).setOptions(fuzzyMatching=True))
             comp.addSearchers(env.StubSearcher(*env.BASE_NAMES))
-            res = comp.compile(*case['req'], noDeps=case['nd'])
+            asked = [case.get('spell', m) if m == 'FOO-MIB' else m for m in case['req']]
+            res = comp.compile(*asked, noDeps=case['nd'])
             written = sorted(n for n, _, _ in w.written)
             want = {}
             closure = ['FOO-MIB', 'BAR-MIB'] if 'FOO-MIB' in case['req'] else ['BAR-MIB']
             for m in closure:
                 want[m] = 'compiled' if (not case['nd'] or m in case['req']) else 'untouched'
             vs = []
-            sig = 'C10|nodeps-file-names|%s' % ('noDeps' if case['nd'] else 'deps')
+            sig = 'C10|nodeps-file-names|%s%s' % ('noDeps' if case['nd'] else 'deps', '|requested-in-another-spelling' if case.get('spell') else '')
             for m, st in sorted(want.items()):
                 if str(res.get(m)) != st:
                     how = 'as-given' if (case['f'] if m == 'FOO-MIB' else case['b']).split('.')[0] == m else 'other-spelling'
